@@ -86,6 +86,7 @@ let tablecheck () =
       if not (entry_matches e) then
         Printf.printf "mismatch %d allowed=%d\n" (int_of_n op) (if List.exists (fun x -> int_of_n x = int_of_n op) table_exceptions then 1 else 0))
     optable;
+  Printf.printf "control %s\n" (ilist (List.map int_of_n control_events));
   print_string "tablecheck done\n"
 
 let () =
